@@ -25,14 +25,17 @@ pub(crate) fn rem(
 ) -> Result<(i128, u8), DecimalError> {
     match divident_n_frac_digits.cmp(&divisor_n_frac_digits) {
         Ordering::Equal => {
-            Ok((divident_coeff % divisor_coeff, divident_n_frac_digits))
+            Ok((
+                divident_coeff.wrapping_rem(divisor_coeff),
+                divident_n_frac_digits,
+            ))
         }
         Ordering::Greater => match checked_mul_pow_ten(
             divisor_coeff,
             divident_n_frac_digits - divisor_n_frac_digits,
         ) {
             Some(shifted_divisor_coeff) => Ok((
-                divident_coeff % shifted_divisor_coeff,
+                divident_coeff.wrapping_rem(shifted_divisor_coeff),
                 divident_n_frac_digits,
             )),
             None => Ok((divident_coeff, divident_n_frac_digits)),
@@ -41,15 +44,15 @@ pub(crate) fn rem(
             let mut shift = divisor_n_frac_digits - divident_n_frac_digits;
             match checked_mul_pow_ten(divident_coeff, shift) {
                 Some(shifted_divident_coeff) => Ok((
-                    shifted_divident_coeff % divisor_coeff,
+                    shifted_divident_coeff.wrapping_rem(divisor_coeff),
                     divisor_n_frac_digits,
                 )),
                 None => {
-                    let mut rem = divident_coeff % divisor_coeff;
+                    let mut rem = divident_coeff.wrapping_rem(divisor_coeff);
                     while rem != 0 && shift > 0 {
                         match rem.checked_mul(10) {
                             Some(shifted_rem) => {
-                                rem = shifted_rem % divisor_coeff;
+                                rem = shifted_rem.wrapping_rem(divisor_coeff);
                             }
                             None => {
                                 return Err(DecimalError::InternalOverflow)
